@@ -328,6 +328,50 @@ def run(ctx: Ctx) -> None:
                         ctx.violation("C15:many-shapes", "after several different input shapes the transformed module no longer "
                                       "quantises" + (" (it computes the untransformed function)" if plain else ""), key)
                         break
+        # ---------------- which of (input, weight, bias) require grad must not matter: every gradient that exists is the
+        #                  gradient of the hand-quantised computation (frozen weights, bias-only fine-tuning, plain data inputs)
+        class LinF(nn.Module):
+            def __init__(self, unit: bool) -> None:
+                super().__init__()
+                self.w = nn.Parameter(torch.randn(6, 8))
+                self.b = nn.Parameter(torch.randn(6))
+                self.unit = unit
+
+            def forward(self, x):  # type: ignore[no-untyped-def]
+                return U.linear(x, self.w, self.b) if self.unit else F.linear(x, self.w, bias=self.b)
+
+        f_ = FPFormat(3, 2, "nearest")
+        b_ = FPFormat(2, 1, "nearest")
+        qf_, qb_ = make_ref(f_, b_)
+        for unit_ in (False,):      # (unit-scaled linears reach the backend only as nodes left by unit_scale: main loop above)
+            for combo in range(1, 8):
+                rg = {"x": bool(combo & 1), "w": bool(combo & 2), "b": bool(combo & 4)}
+                key = {"path": "direct", "requires_grad": rg, "op": "U.linear" if unit_ else "F.linear", "formats": "rn E3M2/E2M1"}
+                ctx.count(key, bucket="direct/requires-grad")
+                with ctx.guard("C15:requires-grad", key):
+                    torch.manual_seed(11)
+                    m_ = LinF(unit_)
+                    m_.w.requires_grad_(rg["w"])
+                    m_.b.requires_grad_(rg["b"])
+                    gm_ = _quantisation_backend(f_, b_)(fg.trace_fx(copy.deepcopy(m_)), [])
+                    x_ = torch.randn(5, 8)
+                    up_ = torch.randn(5, 6)
+                    xi = x_.clone().requires_grad_(rg["x"])
+                    y = gm_(xi)
+                    y.backward(up_)
+                    got_ = {"x": xi.grad, "w": gm_.w.grad, "b": gm_.b.grad}
+                    xr = x_.clone().requires_grad_(rg["x"])
+                    wr = m_.w.detach().clone().requires_grad_(rg["w"])
+                    br = m_.b.detach().clone().requires_grad_(rg["b"])
+                    yr = qb_((U.linear if unit_ else F.linear)(qf_(xr), qf_(wr), br))
+                    yr.backward(up_)
+                    want_ = {"x": xr.grad, "w": wr.grad, "b": br.grad}
+                    if not torch.equal(y.detach(), yr.detach()):
+                        ctx.violation("C15:requires-grad:output", "output differs from the hand-quantised computation", key)
+                    for nm in ("x", "w", "b"):
+                        if (got_[nm] is None) != (want_[nm] is None) or (got_[nm] is not None and not torch.equal(got_[nm], want_[nm])):
+                            ctx.violation(f"C15:requires-grad:grad-{nm}", f"gradient of {nm} differs from the hand-quantised computation "
+                                          "for this combination of requires_grad flags", key)
         # ---------------- root module that is itself a torch.nn layer
         for layer_name, layer, x in (("nn.Linear", nn.Linear(8, 4), torch.randn(3, 8)),):
             key = {"path": "dynamo", "root": layer_name}
